@@ -149,6 +149,7 @@ fn single(seed: u64, idx: u64) -> Tally {
     t.count("qpoints", out.qpoints.len() as u64);
     t.interleavings.insert(out.sched_hash);
     t.count("c20.runs_inside_an_outer_span", u64::from(outer));
+    t.count("worlds_holding_a_child_of_their_scenario_span", world::with_rs(|rs| rs.scenario_span_holds));
     t.count("runs_configured_through_the_cucumber_facade", u64::from(through_facade));
     t.count("runs_of_a_cloned_cucumber_value", u64::from(clone_facade));
     t.count("c20.deferred_in_span_logs_fired", out.qpoints.iter().filter(|q| q.decision.contains("deferred")).count() as u64);
